@@ -208,6 +208,8 @@ def gen_guess(r, target, s, N, cfg):
         forms = [(1, "num")]
         if rows > 1:
             forms.append((1, "vec"))
+        elif r.random() < 0.3:
+            return ["arr", [[rnum(r)]], pick(r, ["np", "dm"])]  # a 1-by-1 array for a scalar global variable
     else:
         if rows > 1:
             forms.append((1, "vec"))
@@ -237,6 +239,58 @@ def gen_guess(r, target, s, N, cfg):
     if rows == 1 and as_ == "np" and r.random() < 0.5:
         return ["arr", [rnum(r) for _ in range(ncol)], "np"]  # 1-D numpy (auto-transposed)
     return ["arr", [[rnum(r) for _ in range(ncol)] for _ in range(rows)], as_]
+
+
+def op_symbols(op):
+    """names of the symbols an op needs to exist"""
+    from . import expr as E
+
+    names = set()
+    if "expr" in op:
+        E.symbols_of(op["expr"], names)
+    k = op["op"]
+    if k in ("set_der", "set_next"):
+        names.add(op["state"])
+    if k == "set_value":
+        names.add(op["p"])
+    if k == "set_value_cat":
+        names.update(op["ps"])
+    if k == "set_initial":
+        if op["x"] not in ("T", "t0"):
+            names.add(op["x"])
+        if op["g"][0] == "expr":
+            E.symbols_of(op["g"][1], names)
+    if k == "set_T" and op["T"][0] == "par":
+        names.add(op["T"][1])
+    if k == "set_t0" and op["t0"][0] == "par":
+        names.add(op["t0"][1])
+    return set(n for n in names if not n.startswith("@") and not n.startswith("?"))
+
+
+def shuffle_base(ops, r):
+    """a random order of the same declarations in which every symbol is declared before it is used; the relative order
+    of the symbol declarations themselves, of the constraints, of the objective terms and of the guesses is kept (it
+    is part of the specification: it fixes the order of variables and rows), and the callback stays behind the method"""
+    head, rest = ops[:1], list(ops[1:])
+    chains = {"sym": "sym", "subject_to": "con", "clear_constraints": "con", "add_objective": "obj", "set_initial": "ini",
+              "set_der": "dyn", "set_next": "dyn", "add_alg": "dyn", "method": "meth", "callback": "meth", "set_T": "hz", "set_t0": "hz"}
+    out = list(head)
+    declared = set()
+    while rest:
+        ready = []
+        seen_chain = set()
+        for i, op in enumerate(rest):
+            ch = chains.get(op["op"], op["op"] + str(op.get("p", "")))
+            first_of_chain = ch not in seen_chain
+            seen_chain.add(ch)
+            if first_of_chain and op_symbols(op) <= declared:
+                ready.append(i)
+        i = ready[r.randrange(len(ready))] if ready else 0
+        op = rest.pop(i)
+        if op["op"] == "sym":
+            declared.add(op["name"])
+        out.append(op)
+    return out
 
 
 # ----------------------------------------------------------------------------------------------
@@ -286,7 +340,12 @@ def gen_base(r, cfg):
         rows = 2 if (cfg.get("vector_states", True) and r.random() < 0.2) else 1
         decl("state", rows=rows, scale=scale())
     for i in range(nu):
-        decl("control", scale=scale(0.15))
+        decl("control", scale=scale(0.15), rows=2 if (cfg.get("vector_controls", True) and r.random() < 0.12) else 1)
+    quads = []
+    if cfg.get("quad_states", True) and r.random() < 0.2:
+        cnt["q"] = cnt.get("q", 0) + 1
+        emit({"op": "sym", "name": "q1", "kind": "qstate"})
+        quads.append("q1")
     # parameters
     pk = cfg.get("param_kinds", [(3, "g"), (1, "gv"), (1, "gm"), (2, "c"), (2, "c+")])
     for i in range(r.randint(cfg.get("np_min", 0), cfg.get("np_max", 3))):
@@ -338,6 +397,11 @@ def gen_base(r, cfg):
             emit({"op": "set_next", "state": s, "expr": e})
         else:
             emit({"op": "set_der", "state": s, "expr": e, "scale": scale(0.1)})
+    for q in quads:  # explicitly declared quadrature state: running cost, used through at_tf
+        if not discrete:
+            emit({"op": "set_der", "state": q, "expr": ["sq", gen_sum(r, sig, 1)]})
+        else:
+            emit({"op": "set_next", "state": q, "expr": ["sq", gen_sum(r, sig, 1)]})  # (rockit accumulates the increments)
     for z in sp.names("algebraic"):
         x_at = atoms(sp, ("state",), allow_t=False)
         emit({"op": "add_alg", "expr": ["-", ["s", z], gen_sum(r, x_at, 1)]})
@@ -441,6 +505,9 @@ def gen_objectives(r, sp, cfg, n):
     npar = atoms(sp, ("parameter:control",), allow_t=False, node_only=True)
     for i in range(n):
         kinds = [(3, "int"), (2, "tf"), (1, "sum")]
+        qs = sp.names("qstate")
+        if qs:
+            kinds.append((3, "quad"))
         if npar:
             kinds.append((2, "track"))
         if sp.nxt:  # discrete-time model: no integrals
@@ -458,6 +525,8 @@ def gen_objectives(r, sp, cfg, n):
             e = ["at_tf", ["sq", pick(r, sigs)]]
         elif k == "sum":
             e = [pick(r, ["sum", "sum+"]) if not atoms(sp, ("control",), False) else "sum", ["sq", pick(r, sig)]]
+        elif k == "quad":
+            e = ["at_tf", ["s", pick(r, qs)]]
         elif k == "track":  # sum over the control grid of a tracking error against a per-node reference
             q = pick(r, npar)
             e = ["sum", ["sq", ["-", pick(r, sigs), q]]]
